@@ -12,7 +12,7 @@ From Coq Require Import List NArith Bool String.
 From GoGit Require Import Base.Out Model.Status Spec.GitStatus Proofs.C27.
 From GoGit Require Import Model.StatTime Proofs.C27Time.
 From GoGit Require Import Model.StatusTrie Spec.GitStatusTrie Proofs.C27Trie Proofs.C27TrieMain.
-From GoGit Require Model.DiffTree.
+From GoGit Require Model.DiffTree Proofs.C27Small Proofs.C27Unflat.
 Import ListNotations.
 Local Open Scope N_scope.
 
@@ -139,6 +139,43 @@ Theorem C27_status_eq : forall ts ps,
 Proof. exact status_rec_git. Qed.
 Print Assumptions C27_status_eq.
 
+(* the index tree is the one mindex.NewRootNode infers from the entries in index order
+   (Model/StatusTrie.v unflat): when the insertion never meets a file where it needs a directory
+   nor an existing node where it puts a file (boolean guard unflat_ok: no entry path is equal to,
+   or a leading directory of, another), that tree holds exactly the entries and its names are
+   distinct per directory — so C27_status_eq applies to the state whose index tree is built
+   from the flat index *)
+Theorem C27_index_tree : forall entries,
+  C27Unflat.unflat_ok entries [] = true ->
+  (forall q l, In (q, l) (fl (unflat entries)) <-> In (q, l) entries) /\ MapDiff.tree_ok (unflat entries) = true.
+Proof. exact C27Unflat.unflat_spec. Qed.
+Print Assumptions C27_index_tree.
+
+Theorem C27_status_eq_entries : forall ts entries ps,
+  let ts' := mkTS (ts_fmt ts) (ts_filemode ts) (ts_idxtime ts) (ts_head ts) (unflat entries) (ts_wt ts)
+                  [] (ts_ign ts) (ts_ign_idx ts) (ts_excl ts) in
+  C27Unflat.unflat_ok entries [] = true -> C27TrieMain.ts_wf ts' = true ->
+  forallb (ok_path (flat_git ts')) ps = true ->
+  status_rec ts' ps = Some (git_status_ts ts' ps) /\
+  (forall q l, In (q, l) (fl (ts_index ts')) <-> In (q, l) entries).
+Proof.
+  intros ts entries ps ts' U W G. split.
+  - apply status_rec_git; [exact W|reflexivity|exact G].
+  - apply (proj1 (C27Unflat.unflat_spec entries U)).
+Qed.
+Print Assumptions C27_status_eq_entries.
+
+(* the walk of the theorems above is the recursive merge (C44's formulation); the code runs two
+   iterators.  The two-iterator loop of Model/StatusTrie.v — the one compared with the
+   implementation on every case, where its listing is also compared with the recursive merge's —
+   returns the same change list as the recursive merge for every pair of trees of a small scope
+   (two names, two leaf values, depth <= 2: 144 x 144 pairs), by computation *)
+Theorem C27_walks_agree_small :
+  List.length C27Small.all_trees = 144%nat /\
+  forallb (fun x => forallb (fun y => C27Small.agree x y) C27Small.all_trees) C27Small.all_trees = true.
+Proof. exact C27Small.walks_agree_small. Qed.
+Print Assumptions C27_walks_agree_small.
+
 (* --- skip-worktree entries (the two-iterator walk with Skip(), status_flat).
    Names: a = [97], d = [100], e = [101], u = [117], x = [120], y = [121] *)
 Definition fileH (n : N) (c : N) : DiffTree.name * DiffTree.node := ([n], DiffTree.File (M_REG, [0; c])).
@@ -257,6 +294,11 @@ Example C27_trie_inhabited :
         ([100; 47; 117], CUntracked, CUntracked); ([100; 47; 121], CUnmod, CMod)] /\
   status_flat ex_ts (all_paths_ts ex_ts) = status_rec ex_ts (all_paths_ts ex_ts).
 Proof. vm_compute. repeat split; reflexivity. Qed.
+
+Example C27_index_tree_inhabited :
+  let entries := [([[97]], (M_REG, [0; 2; 2; 5; 0])); ([[100]; [120]], (M_REG, [0; 1; 2; 5; 0])); ([[100]; [121]], (M_REG, [0; 1; 2; 5; 0]))] in
+  C27Unflat.unflat_ok entries [] = true /\ unflat entries = ts_index ex_ts.
+Proof. vm_compute. split; reflexivity. Qed.
 
 Example C27_timeline_ns_inhabited :
   let h := [ETo (mkTs 7 500); EWrite 1 2; EStage; ETo (mkTs 7 900); EWrite 2 2; ETo (mkTs 8 0); EStage; ETo (mkTs 8 1)] in
